@@ -204,7 +204,8 @@ pub enum Fault {
     /// Poll::Pending n times; defer = 0: wake immediately from inside poll,
     /// defer = d > 0: the executor wakes the task d ticks later
     Pending { n: u8, defer: u8 },
-    /// one-shot io::Error of kind ERR_KINDS[k]; payload carries a unique tag
+    /// one-shot io::Error of kind ERR_KINDS[k % 5]; payload carries a unique tag, as a
+    /// string (k < 5) or inside a quick_xml::Error (k >= 5)
     Err(u8),
 }
 
@@ -261,6 +262,9 @@ pub enum Build {
     End(String),
     /// BytesText::new(s)
     Text(String),
+    /// BytesText::new(s) (made owned first if `owned`), then inplace_trim_start() /
+    /// inplace_trim_end() as flagged, then written
+    TextTrim { s: String, start: bool, end: bool, owned: bool },
     /// BytesCData::escaped(s): as many CData events as the iterator yields
     CDataEscaped(String),
     /// BytesCData::new(s), s without "]]>"
